@@ -62,6 +62,27 @@ _PATCHED = []
 CDRAW_STRIDE = 10 ** 15 + 37     # the model's count for one number drawn by the caller (keeps stream positions apart)
 
 
+AFFINE_CALLS = []
+
+
+def patch_affine():
+    """record the arguments of every `affine_transform` call the infinite layer makes (the sub-pixel read-out request)"""
+    import hcipy.atmosphere.infinite_atmospheric_layer as mod
+    if getattr(mod.affine_transform, '_verif', False):
+        return
+    orig = mod.affine_transform
+
+    def rec(input, matrix, offset=0.0, *a, **kw):
+        try:
+            AFFINE_CALLS.append({'matrix': [float(x) for x in np.asarray(matrix).ravel()], 'offset': [float(x) for x in np.asarray(offset).ravel()],
+                                 'mode': kw.get('mode'), 'order': kw.get('order'), 'shape': tuple(np.asarray(input).shape), 'extra': len(a)})
+        except Exception as e:  # noqa
+            AFFINE_CALLS.append({'error': '%s: %s' % (type(e).__name__, e)})
+        return orig(input, matrix, offset, *a, **kw)
+    rec._verif = True
+    mod.affine_transform = rec
+
+
 def patch_make_noise():
     """record, at class level (the constructor already calls it), the generator state `_make_noise` draws from and the
     parameters it uses: the observable behind the model's `noise=` / `npar=`"""
@@ -152,10 +173,16 @@ def run_layer(case, layer, k=1.0):
     atm = None
     obs = []
     arnew = []
+    try:
+        patch_affine()
+        affine_ok = True
+    except Exception:  # noqa
+        affine_ok = False
     for op in case['ops']:
         o = {'op': op, 'status': 'ok'}
         del ext[:]
         del arnew[:]
+        del AFFINE_CALLS[:]
         try:
             if op[0] == 'evolve':
                 layer.evolve_until(op[1])
@@ -205,6 +232,7 @@ def run_layer(case, layer, k=1.0):
         o['orig'] = rng_state(layer._original_rng)
         o['ext'] = list(ext)
         o['ar'] = list(arnew)
+        o['req'] = list(AFFINE_CALLS) if affine_ok else None
         o['cn2'] = float(layer.Cn_squared)
         o['L0'] = float(layer.L0)
         o['vel'] = [float(x) for x in np.asarray(layer.velocity).ravel()]
@@ -690,6 +718,25 @@ def compare_layer(ctx, case, obs, out, idx):
                         'present' if o['valid'] else 'None', 'present' if o['cache'] else 'None')), key='fin-lazy'); return
                 if o['op'][0] == 'read':
                     shown.append((kv['shown'], o['phase1']))
+        if case['kind'] == 'infinite' and o['op'][0] in ('evolve', 'sett') and 'req' in kv:
+            # the sub-pixel read-out request: what the layer really hands to scipy's affine_transform against the model's interpRequest
+            calls = o.get('req')
+            want = parse_rat_list(kv['req'])
+            if calls is None or any('error' in c for c in calls):
+                ctx.disagree(stream, dict(detail, impl='the affine_transform call could not be observed: %r' % (calls,)), key='inf-interp-request'); return
+            if not case['interp']:
+                if calls:
+                    ctx.disagree(stream, dict(detail, impl='affine_transform called without use_interpolation'), key='inf-interp-request'); return
+            else:
+                good = len(calls) == 1 and calls[0]['matrix'] == [1.0, 1.0] and calls[0]['mode'] == 'nearest' and calls[0]['order'] == 5 and \
+                    calls[0]['extra'] == 0 and calls[0]['shape'] == (case['ny'], case['nx']) and kv.get('reqc') == '1,1,5,nearest' and \
+                    len(calls[0]['offset']) == 2 and all(abs(a - float(b)) <= 1e-9 for a, b in zip(calls[0]['offset'], want))
+                ctx.count('infinite:read-out requests (affine_transform calls) compared with interpRequest')
+                if good and any(b != 0 for b in want):
+                    ctx.count('infinite:read-out requests with a non-zero offset')
+                if not good:
+                    ctx.disagree(stream, dict(detail, model='interpRequest offset (row, column) %s, matrix/order/mode %s' % (kv['req'], kv.get('reqc')),
+                                              impl='affine_transform calls %r' % (calls,)), key='inf-interp-request'); return
         if case['kind'] == 'infinite':
             if o['op'][0] == 'reset':
                 hist = 0
